@@ -319,6 +319,10 @@ def get_object_results(
     if not ground_truth_objects and evaluation_task.is_fp_validation() is False:
         return _get_fp_object_results(estimated_objects)
 
+    # There is no GT in FP validation (= unpaired estimations are ignored)
+    if not ground_truth_objects:
+        return []
+
     assert isinstance(
         ground_truth_objects[0], type(estimated_objects[0])
     ), f"Type of estimation and ground truth must be same, but got {type(estimated_objects[0])} and {type(ground_truth_objects[0])}"
